@@ -210,6 +210,24 @@ impl CompactionWorker {
     }
 }
 
+#[cfg(feature = "verif")]
+impl CompactionWorker {
+    /// Verification hook: a worker without a background thread. Scheduled tasks are buffered.
+    pub(crate) fn new_detached(_db_state: PortableDatabaseState) -> CompactionWorkerResult<Self> {
+        let (task_sender, receiver) = mpsc::sync_channel(1000);
+        std::mem::forget(receiver);
+        Ok(Self {
+            maybe_background_compaction_handle: None,
+            task_sender,
+        })
+    }
+
+    /// Verification hook: run one background task on the calling thread.
+    pub(crate) fn run_compaction_task_inline(db_state: &PortableDatabaseState) -> bool {
+        CompactionWorker::compaction_task(db_state)
+    }
+}
+
 /// Private methods
 impl CompactionWorker {
     /**
